@@ -417,12 +417,18 @@ fn run_case(out: &mut Out, ctx: &mut Ctx, k: u64, ops: &[Op], tags: &str) {
     }
 }
 
-/// all merges of the scripts (each script's own order preserved), as (script index, op)
+/// all merges of the scripts (each script's own order preserved), as (script index, op).
+/// Script s starts only after script s-1 has started: ids are handed out in begin order and the
+/// callers range over all ordered tuples of scripts, so the other merges are the same call
+/// sequences again.
 fn merges(scripts: &[Vec<SOp>], pos: &mut Vec<usize>, cur: &mut Vec<(usize, SOp)>, f: &mut dyn FnMut(&[(usize, SOp)])) {
     let mut any = false;
     for s in 0..scripts.len() {
         if pos[s] < scripts[s].len() {
             any = true;
+            if pos[s] == 0 && s > 0 && pos[s - 1] == 0 {
+                continue;
+            }
             cur.push((s, scripts[s][pos[s]]));
             pos[s] += 1;
             merges(scripts, pos, cur, f);
@@ -466,30 +472,53 @@ fn concretize(m: &[(usize, SOp)], nscripts: usize) -> Vec<Op> {
 }
 
 /// the 3 entities: node 1, node 2, relationship 1 (same number as node 1 on purpose)
-fn write_sets(max: usize) -> Vec<Vec<SOp>> {
-    let ents = [SOp::WriteN(1), SOp::WriteN(2), SOp::WriteE(1)];
+const ENTS3: [SOp; 3] = [SOp::WriteN(1), SOp::WriteN(2), SOp::WriteE(1)];
+const ENTS2: [SOp; 2] = [SOp::WriteN(1), SOp::WriteE(1)];
+
+fn write_sets(ents: &[SOp], max: usize) -> Vec<Vec<SOp>> {
     let mut v = Vec::new();
-    for mask in 0..8u32 {
+    for mask in 0..(1u32 << ents.len()) {
         if (mask.count_ones() as usize) <= max {
-            v.push((0..3).filter(|b| mask & (1 << b) != 0).map(|b| ents[b]).collect());
+            v.push((0..ents.len()).filter(|b| mask & (1 << b) != 0).map(|b| ents[b]).collect());
         }
     }
     v
 }
 
-fn scripts_for(max_writes: usize, isos: &[bool]) -> Vec<Vec<SOp>> {
+fn scripts_for(ents: &[SOp], max_writes: usize, isos: &[bool], ends: &[SOp]) -> Vec<Vec<SOp>> {
     let mut v = Vec::new();
     for &si in isos {
-        for ws in write_sets(max_writes) {
-            for end in [SOp::Commit, SOp::Abort] {
+        for ws in write_sets(ents, max_writes) {
+            for end in ends {
                 let mut s = vec![SOp::Begin(si)];
                 s.extend(ws.iter().cloned());
-                s.push(end);
+                s.push(*end);
                 v.push(s);
             }
         }
     }
     v
+}
+
+fn exhaust3(out: &mut Out, ctx: &mut Ctx, r: &mut Rng, s3: &[Vec<SOp>], tag: &str) {
+    for a in s3 {
+        for b in s3 {
+            for c in s3 {
+                let scripts = vec![a.clone(), b.clone(), c.clone()];
+                let mut list: Vec<Vec<(usize, SOp)>> = Vec::new();
+                merges(&scripts, &mut vec![0; 3], &mut Vec::new(), &mut |m| list.push(m.to_vec()));
+                for mut m in list {
+                    for x in m.iter_mut() {
+                        if let SOp::Begin(_) = x.1 {
+                            x.1 = SOp::Begin(r.chance(1, 2));
+                        }
+                    }
+                    let ops = concretize(&m, 3);
+                    run_case(out, ctx, 4, &ops, tag);
+                }
+            }
+        }
+    }
 }
 
 fn main() {
@@ -504,7 +533,8 @@ fn main() {
     out.rule = "exhaustive: every interleaving of 2 transactions, each = begin (either isolation level), a write set of \
                 <=3 of the entities {node 1, node 2, relationship 1}, commit or abort; followed by a second commit and \
                 abort of each and of a never-begun id. thorough adds every interleaving of 3 transactions with <=1 \
-                write each (isolation levels drawn from the seed). random: <=4 transactions, <=26 calls incl. repeated \
+                write each, and with <=2 writes over {node 1, relationship 1} all committing (isolation levels drawn \
+                from the seed). random: <=4 transactions, <=26 calls incl. repeated \
                 commits/aborts, unknown ids, gc_versions(w <= watermark) and gc_auto at any point. After every call: \
                 result class, current_version, the transaction table and the version get_node_for_txn reads at. \
                 Non-trivial = contains a commit; distinct by case text."
@@ -514,7 +544,7 @@ fn main() {
     }
 
     // ---- exhaustive: 2 transactions x <=3 writes over 3 entities, both isolation levels ----
-    let s2 = scripts_for(3, &[false, true]);
+    let s2 = scripts_for(&ENTS3, 3, &[false, true], &[SOp::Commit, SOp::Abort]);
     for a in &s2 {
         for b in &s2 {
             let scripts = vec![a.clone(), b.clone()];
@@ -526,28 +556,15 @@ fn main() {
             }
         }
     }
-    // ---- thorough: 3 transactions x <=1 write ----
+    // ---- thorough: 3 transactions ----
     if args.thorough {
         let mut r = Rng::new(args.seed ^ 0xC09);
-        let s3 = scripts_for(1, &[false]);
-        for a in &s3 {
-            for b in &s3 {
-                for c in &s3 {
-                    let scripts = vec![a.clone(), b.clone(), c.clone()];
-                    let mut list: Vec<Vec<(usize, SOp)>> = Vec::new();
-                    merges(&scripts, &mut vec![0; 3], &mut Vec::new(), &mut |m| list.push(m.to_vec()));
-                    for mut m in list {
-                        for x in m.iter_mut() {
-                            if let SOp::Begin(_) = x.1 {
-                                x.1 = SOp::Begin(r.chance(1, 2));
-                            }
-                        }
-                        let ops = concretize(&m, 3);
-                        run_case(&mut out, &mut ctx, 4, &ops, "x3");
-                    }
-                }
-            }
-        }
+        // <=1 write over the 3 entities, commit or abort
+        let s3 = scripts_for(&ENTS3, 1, &[false], &[SOp::Commit, SOp::Abort]);
+        exhaust3(&mut out, &mut ctx, &mut r, &s3, "x3");
+        // <=2 writes over {node 1, relationship 1}, all commit
+        let s3b = scripts_for(&ENTS2, 2, &[false], &[SOp::Commit]);
+        exhaust3(&mut out, &mut ctx, &mut r, &s3b, "x3c");
     }
     // ---- random histories with gc, repeated ends, unknown ids ----
     let n = if args.thorough { 30000 } else { 3000 };
